@@ -5,6 +5,7 @@ CONSTANTS
   SkipFix = FALSE
   CctFix = FALSE
   SelfFailFix = FALSE
+  FlushFix = FALSE
   QMax = 100
   PPInterval = 2
   TestMode = TRUE
